@@ -42,6 +42,7 @@ var checker = &vk.Checker[Case]{
 		"SIZES WITHOUT HOLES: 1 case in 10 is a bitmap of 13..2048 (thorough 8192) words, 1 in 20 a sparsely described one of 2^12..2^19 (thorough 2^23) words, both with a log-uniform word count; their content alternates zero runs of log-uniform length (1 word .. the whole bitmap) with short stretches of boundary/single-bit/dense words ('runs'), " +
 		"or puts 16..256 non-zero words at uniformly random indexes ('comb'); their ranges are anchored on that content (from the end of one non-zero word over the zero run to/into/just short of the next one, from the middle of a run, aligned and unaligned) plus ranges of log-uniform length at uniform / near-start / near-end positions. " +
 		"A deterministic sweep covers every octave of the word count from 4 to 2^25 words: sizes 2^k-1, 2^k, 2^k+1 and pseudo-random sizes inside the octave (explicit words up to 2^13+1, sparse descriptions from 2^12 to 2^25; those above 2^20 words run last in the process), the random sizes of 128..16384 words under every GOMAXPROCS setting in the process that varies it. " +
+		"That process leaves the last phase out, so it scans bitmaps of 2^21 words and more in its grid: per octave from 2^21 to 2^25 words one pseudo-random size (thorough: also 2^k-1, 2^k+1), as a 'span' (ones only in the first and the last few words: every scan crosses the whole bitmap, answers in the very last word, right behind the start, or none) and as a 'comb' asked over its whole length; the 2^21 octave (thorough: all) under every GOMAXPROCS setting, the larger ones under one setting each. " +
 		"Also the MAXIMUM bitmap - exactly 2^25 words = 2^31 bits, the largest one int32 positions address (three fixed sparse descriptions plus the sweep's, oracle from the description): ranges ending at 2^31-1, empty ranges at the top, scans across 2^24 zero words and scans that run off the end. " +
 		"The argument reaches the library as a fresh exact-size copy, as a reused buffer with canaries in its spare capacity, or carved out of the middle of a larger array full of foreign 1-bits; it (and what surrounds it) must read the same afterwards. " +
 		"Non-trivial (per case): some range spans >= 2 words and its answer is not in the first word probed, or it has no answer and >= 1 zero word is skipped. Grid ranges are distinct by construction; rapid cases hashed when the bitmap has > 3 words.",
@@ -807,6 +808,97 @@ func sparseSweep(t *testing.T, kLo, kHi int) {
 	}
 }
 
+// spanCase: a sparsely described bitmap of n words whose only ones sit in the first three and the last three words, so
+// that every range below makes the scan cross (almost) the whole bitmap: from the start to the one in the very last
+// word, to just short of it (no answer), from behind the first ones backwards to them, and over the empty middle.
+// What a scan cut into per-CPU chunks does with the words that are left over at either end is decided here.
+func spanCase(r *rng, n int) Case {
+	var idx []int32
+	var w []uint64
+	head := r.n(3) // index of the last non-zero word at the start
+	for k := 0; k <= head; k++ {
+		if k == head || r.n(2) == 0 {
+			idx, w = append(idx, int32(k)), append(w, r.word())
+		}
+	}
+	tail := n - 1 - r.n(3) // index of the first non-zero word at the end
+	for k := tail; k < n; k++ {
+		if k == tail || r.n(2) == 0 {
+			x := r.word()
+			if k == n-1 && r.n(2) == 0 {
+				x = 1 << 63 // only the very last position of the bitmap
+			}
+			idx, w = append(idx, int32(k)), append(w, x)
+		}
+	}
+	N := int64(n)
+	lo, hi := 64*int64(head+1), 64*int64(tail) // the empty middle is [lo, hi)
+	rs := [][2]int32{
+		mkRange(lo, 64*N, N), // NextOne: the first one of word 'tail'; PrevOne: the last one of the bitmap
+		mkRange(lo-int64(r.n(64))-1, hi+1+int64(r.n(63)), N), // from inside the last word of the head into the first word of the tail
+		mkRange(lo, hi, N), // nothing: both scans cross the whole middle
+		mkRange(0, hi, N),  // PrevOne walks back to the head
+		mkRange(0, 64*N, N),
+	}
+	for d := 0; d < 2 && n+d < gen.MaxWords; d++ { // not part of the bitmap
+		if d == 0 || r.n(2) == 0 {
+			idx, w = append(idx, int32(n+d)), append(w, r.word()|1)
+		}
+	}
+	return Case{Sparse: &Sparse{N: n, Idx: idx, W: w}, Style: "sparse-span", Ranges: rs}
+}
+
+// combWholeCase: 16..256 non-zero words at uniformly random indexes, asked over the whole length, from behind the first
+// non-zero word, up to the last one, and over a few random ranges (a scan cut into chunks must prefer the lowest /
+// the highest chunk that found something).
+func combWholeCase(r *rng, n int) Case {
+	c := sparseCase(r, n, true, 2, 4)
+	s := c.Sparse
+	N := int64(n)
+	first, last := int64(-1), int64(-1)
+	for _, x := range s.Idx {
+		if int(x) < n {
+			if first < 0 {
+				first = int64(x)
+			}
+			last = int64(x)
+		}
+	}
+	c.Ranges = append(c.Ranges, mkRange(0, 64*N, N), mkRange(64*(first+1), 64*N, N), mkRange(0, 64*last, N), mkRange(64*(first+1)+int64(r.n(64)), 64*last-int64(r.n(64)), N))
+	c.Style = "sparse-comb-whole"
+	return c
+}
+
+// hugeUnderProcs: the process that varies GOMAXPROCS leaves out TestLast, where the ordinary process meets the bitmaps of
+// more than 2^20 words; a scan that is handed to several goroutines only when it is huge would never run with more than
+// one scheduler thread. So that process scans such bitmaps here. One full scan of 2^25 words takes tens of
+// milliseconds: the quick tier sweeps the GOMAXPROCS settings on the smallest octave only.
+func hugeUnderProcs(t *testing.T) {
+	for k := 21; k <= 25; k++ {
+		sizes, _ := sweepSizes(k, 1, gen.MaxWords) // 2^k-1, 2^k, 2^k+1, one pseudo-random size of the octave
+		if !vk.Thorough() {
+			sizes = sizes[len(sizes)-1:]
+		}
+		for j, n := range sizes {
+			for kind := 0; kind < 2; kind++ {
+				r := &rng{x: sweepKey(n, 100+2*j+kind)}
+				var c Case
+				if kind == 0 {
+					c = spanCase(r, n)
+				} else {
+					c = combWholeCase(r, n)
+				}
+				c.Style = "procs-" + c.Style
+				if k == 21 || vk.Thorough() {
+					vk.ProcsSweep(func() { checker.Run(t, c) })
+				} else {
+					checker.Run(t, c)
+				}
+			}
+		}
+	}
+}
+
 func TestGrid(t *testing.T) {
 	vk.SetPhase("grid")
 	oracleSelfTest(t)
@@ -874,6 +966,9 @@ func TestGrid(t *testing.T) {
 	}
 	// the sweep continues with sparsely described bitmaps (2^12 .. 2^20 words here, the rest in TestLast)
 	sparseSweep(t, 12, 20)
+	if vk.ProcsVaried() {
+		hugeUnderProcs(t)
+	}
 	vk.CountConstructed(evals, nontriv, "grid-range")
 	vk.AddSample(map[string]any{"grid": "216 three-word bitmaps x all (i,end)", "example": map[string]any{"words": []string{"8000000000000000", "0", "1"}, "i": 64, "end": 130, "NextOne": bitmap.NextOne([]uint64{1 << 63, 0, 1}, 64, 130), "PrevOne": bitmap.PrevOne([]uint64{1 << 63, 0, 1}, 64, 130)}})
 	vk.MarkExhaustive("all 216 three-word bitmaps over a 6-word palette x all 0<=i<=end<=192")
